@@ -792,3 +792,145 @@ def gen_defn():
 
 
 GENERATORS = GENERATORS + (('Defn', gen_defn),)
+
+
+# ---------------------------------------------------------------------------------------------------------------------
+
+class CompTr:
+    """Set comprehensions / nested loops over names and pairs of a definition -> Lean list expressions.
+    `A & B` on `Unique` operands is `collections.abc.Set.__and__`: the members of B that are in A, in B's order."""
+
+    def __init__(self, seqs, pairsets, xors=None):
+        self.seqs = dict(seqs)            # python expr text -> lean term : List Name
+        self.pairsets = dict(pairsets)    # python expr text -> lean term : List (Name × Name)
+        self.xors = dict(xors or {})      # python name -> (lean pair list, lean pair list): symmetric difference of two pair sets
+
+    def seq(self, node):
+        t = ast.unparse(node)
+        if t in self.seqs:
+            return self.seqs[t]
+        raise Decline('unsupported sequence of names %s' % t)
+
+    def pair(self, node, bound):
+        if isinstance(node, ast.Tuple) and len(node.elts) == 2 and all(isinstance(e, ast.Name) and e.id in bound for e in node.elts):
+            return '(%s, %s)' % (node.elts[0].id, node.elts[1].id)
+        raise Decline('unsupported pair %s' % ast.unparse(node))
+
+    def cond(self, node, bound):
+        if isinstance(node, ast.Compare) and len(node.ops) == 1 and isinstance(node.ops[0], (ast.In, ast.NotIn)):
+            neg = isinstance(node.ops[0], ast.NotIn)
+            pr = self.pair(node.left, bound)
+            t = ast.unparse(node.comparators[0])
+            if t in self.pairsets:
+                c = '%s.contains %s' % (self.pairsets[t], pr)
+            elif t in self.xors:
+                a, b = self.xors[t]
+                c = '(%s.contains %s != %s.contains %s)' % (a, pr, b, pr)
+            else:
+                raise Decline('membership in %s' % t)
+            return '!(%s)' % c if neg else c
+        raise Decline('unsupported filter %s' % ast.unparse(node))
+
+    def nested(self, gens, elt, conds):
+        """[(target name, iter node)] outer to inner (two levels), element, filter conditions"""
+        if len(gens) != 2 or not all(isinstance(t, ast.Name) for t, _ in gens):
+            raise Decline('unsupported generators')
+        (a, ia), (b, ib) = gens
+        bound = {a.id, b.id}
+        body = 'some %s' % self.pair(elt, bound)
+        if conds:
+            body = 'if %s then %s else none' % (' && '.join(self.cond(c, bound) for c in conds), body)
+        return '%s.flatMap fun %s => %s.filterMap fun %s => %s' % (self.seq(ia), a.id, self.seq(ib), b.id, body)
+
+    def setcomp(self, node):
+        if not isinstance(node, ast.SetComp):
+            raise Decline('expected a set comprehension: %s' % ast.unparse(node))
+        gs = node.generators
+        if len(gs) == 1 and not gs[0].ifs and isinstance(gs[0].target, ast.Tuple) and len(gs[0].target.elts) == 2:
+            t = ast.unparse(gs[0].iter)
+            if t not in self.pairsets:
+                raise Decline('comprehension over %s' % t)
+            a, b = (e.id for e in gs[0].target.elts)
+            return '%s.map fun (%s, %s) => %s' % (self.pairsets[t], a, b, self.pair(node.elt, {a, b}))
+        conds = [c for g in gs for c in g.ifs]
+        if any(g.ifs for g in gs[:-1]):
+            raise Decline('a filter on the outer generator')
+        return self.nested([(g.target, g.iter) for g in gs], node.elt, conds)
+
+
+def gen_derive():
+    tree = _src('definitions.py')
+    out = ['import FCA.Model.Defn',
+           '/- GENERATED by harness/extract2.py from Triple.copy, TransformableMixin.inverted / transposed and conflicting_pairs in',
+           '   concepts/definitions.py — do not edit. `_fromargs(a, b, c)` builds a definition from the three parts; `x.copy()` of a',
+           '   `Unique` / set is the same value (non-aliasing is the subject of Model/DefnHeap.lean). -/',
+           'namespace FCA.Generated', '']
+    tr = CompTr(seqs={'self._objects': 'd.objs', 'self._properties': 'd.props'},
+                pairsets={'self._pairs': 'd.pairs', 'pairs': 'd.pairs'})
+
+    def part(node, kind):
+        """an argument of _fromargs"""
+        if (isinstance(node, ast.Call) and isinstance(node.func, ast.Attribute) and node.func.attr == 'copy' and not node.args
+                and not node.keywords):
+            t = ast.unparse(node.func.value)
+            table = tr.seqs if kind == 'names' else tr.pairsets
+            if t in table:
+                return table[t]
+            raise Decline('copy of %s' % t)
+        if kind == 'pairs':
+            return tr.setcomp(node)
+        raise Decline('unsupported part %s' % ast.unparse(node))
+
+    for cls, name in (('Triple', 'copy'), ('TransformableMixin', 'inverted'), ('TransformableMixin', 'transposed')):
+        m = _method(tree, cls, name)
+        if [a.arg for a in m.args.args] != ['self']:
+            raise Decline('%s: signature changed' % name)
+        body = _nodoc(m.body)
+        if len(body) == 2 and ast.unparse(body[0]) == 'pairs = self._pairs':
+            body = body[1:]
+        if len(body) != 1 or not isinstance(body[0], ast.Return):
+            raise Decline('%s: body changed' % name)
+        call = body[0].value
+        if not (isinstance(call, ast.Call) and ast.unparse(call.func) == 'self._fromargs' and len(call.args) == 3 and not call.keywords):
+            raise Decline('%s: does not return self._fromargs(a, b, c)' % name)
+        out += ['/-- `Definition.%s()` -/' % name,
+                'def defn_%s (d : Defn) : Defn :=' % name,
+                '  ⟨%s, %s, %s⟩' % (part(call.args[0], 'names'), part(call.args[1], 'names'), part(call.args[2], 'pairs')), '']
+    # conflicting_pairs(left, right)
+    fn = _function(tree, 'conflicting_pairs')
+    if [a.arg for a in fn.args.args] != ['left', 'right']:
+        raise Decline('conflicting_pairs: signature changed')
+    body = _nodoc(fn.body)
+    seqs, xors = {}, {}
+    for st in body[:-1]:
+        if not (isinstance(st, ast.Assign) and len(st.targets) == 1 and isinstance(st.targets[0], ast.Name) and isinstance(st.value, ast.BinOp)):
+            raise Decline('conflicting_pairs: unsupported statement %s' % ast.unparse(st))
+        l, r = ast.unparse(st.value.left), ast.unparse(st.value.right)
+        names = {'left._objects': 'l.objs', 'right._objects': 'r.objs', 'left._properties': 'l.props', 'right._properties': 'r.props'}
+        prs = {'left._pairs': 'l.pairs', 'right._pairs': 'r.pairs'}
+        if isinstance(st.value.op, ast.BitAnd) and l in names and r in names:
+            seqs[st.targets[0].id] = '(%s.filter %s.contains)' % (names[r], names[l])      # Set.__and__: right operand's order
+        elif isinstance(st.value.op, ast.BitXor) and l in prs and r in prs:
+            xors[st.targets[0].id] = (prs[l], prs[r])
+        else:
+            raise Decline('conflicting_pairs: unsupported statement %s' % ast.unparse(st))
+    loop = body[-1]
+    if not (isinstance(loop, ast.For) and len(loop.body) == 1 and isinstance(loop.body[0], ast.For) and not loop.orelse):
+        raise Decline('conflicting_pairs: the nested loops changed')
+    inner = loop.body[0]
+    if not (len(inner.body) == 1 and isinstance(inner.body[0], ast.If) and not inner.body[0].orelse and len(inner.body[0].body) == 1):
+        raise Decline('conflicting_pairs: the inner loop body changed')
+    y = inner.body[0].body[0]
+    if not (isinstance(y, ast.Expr) and isinstance(y.value, ast.Yield) and y.value.value is not None):
+        raise Decline('conflicting_pairs: the inner loop does not yield')
+    tr2 = CompTr(seqs=seqs, pairsets={}, xors=xors)
+    expr = tr2.nested([(loop.target, loop.iter), (inner.target, inner.iter)], y.value.value, [inner.body[0].test])
+    ec = [ast.unparse(s) for s in _nodoc(_function(tree, 'ensure_compatible').body)]
+    if (len(ec) != 2 or ec[0] != 'conflicts = list(conflicting_pairs(left, right))' or not ec[1].startswith('if conflicts:\n    raise ValueError(')):
+        raise Decline('ensure_compatible changed: %r' % ec)
+    out += ['/-- `conflicting_pairs(left, right)` in yield order (`ensure_compatible` raises `ValueError` iff it is non-empty) -/',
+            'def conflicting_pairs (l r : Defn) : List (Name × Name) :=', '  ' + expr, '', 'end FCA.Generated', '']
+    return '\n'.join(out)
+
+
+GENERATORS = GENERATORS + (('Derive', gen_derive),)
